@@ -349,6 +349,36 @@ class OneShot:
         return 'OneShot()'
 
 
+class SizedOneShot(OneShot):
+    """One-shot stream that also reports how many items are left (``__len__``), like a data-loader iterator: sized and
+    iterable, but neither re-iterable nor a ``Collection`` (no ``__contains__``)."""
+
+    def __init__(self, items, explode=False):
+        super().__init__(items, explode)
+        self._left = len(list(items))
+
+    def __len__(self):
+        self.log['__len__'] += 1
+        return self._left
+
+    def __next__(self):
+        v = super().__next__()
+        self._left -= 1
+        return v
+
+    def __repr__(self):
+        self.log['__repr__'] += 1
+        return 'SizedOneShot()'
+
+
+class SizedReversibleOneShot(SizedOneShot):
+    """As above, and reversible (``__reversed__`` hands out another one-shot stream over the same buffer)."""
+
+    def __reversed__(self):
+        self.log['__reversed__'] += 1
+        return self
+
+
 def item_fetches(log):
     """Number of items a check pulled out of a container, by any protocol route."""
     n = 0
